@@ -141,7 +141,7 @@ Section Main.
     unfold n in Hr. rewrite firstn_all in Hr.
     unfold write_gro, file_after, write_ops. rewrite Hs. cbn [bind]. rewrite w_run_app, Hr. cbn [bind].
     destruct (close_prefixes c w d vel L recs n_pos count_hyp recs_len boxline Hb)
-      as (_ & _ & _ & (st & Hst & Hf)).
+      as (_ & _ & (st & Hst & Hf)).
     rewrite Hst. cbn [bind]. rewrite Hf. reflexivity.
   Qed.
 
@@ -271,14 +271,17 @@ Section Main.
       apply py_int_blank. rewrite forallb_app'. rewrite forallb_repeat by reflexivity. reflexivity.
   Qed.
 
-  (* C14: crash points of the writer, at operation granularity, up to the box write *)
+  Lemma ops_length : length (write_ops recs) = n + 3.
+  Proof. unfold write_ops, close_ops. rewrite app_length, map_length. reflexivity. Qed.
+
+  (* C14: crash points of the writer: every proper prefix of the operation list *)
   Lemma crash_points : exists f, write_gro c recs = Ok f /\
     ((Z.of_nat (length f) < SEEK_LIMIT)%Z ->
-     forall j, j <= n + 2 ->
+     forall j, j < length (write_ops recs) ->
        exists fj, file_after c (firstn j (write_ops recs)) = Ok fj /\ read_gro fj = Err EIO).
   Proof.
     destruct written_file as (boxline & Hb & Hw). exists (complete_file boxline). split; [exact Hw|].
-    intros Hlim j Hj.
+    intros Hlim j Hj. rewrite ops_length in Hj.
     destruct (close_prefixes c w d vel L recs n_pos count_hyp recs_len boxline Hb)
       as ((s1 & Hs1 & Hf1) & (s2 & Hs2 & Hf2) & _).
     destruct (run_records n) as (st0 & Hst0 & Hrn); [pose proof n_pos; lia|].
